@@ -3,6 +3,7 @@ package main
 import (
 	"fmt"
 	"go/ast"
+	"go/token"
 	"regexp"
 	"sort"
 	"strings"
@@ -202,6 +203,53 @@ func genCoerce(c *ctx) string {
 			fmt.Fprintf(&b, "def %s : Table :=\n  { arms := [%s],\n    dflt := %s, formatTime := %s }\n", name, strings.Join(arms, ", "), dflt, post)
 		}
 	}
+	fmt.Fprintf(&b, "/-- `resolve`, leaf branch: on a `CoerceOut` error the response value is set to nil -/\ndef leafErrNulls : Bool := %s\n", leafErrNulls(c))
 	b.WriteString("end Ggql.Gen\n")
 	return b.String()
+}
+
+// leafErrNulls reads the leaf branch of (*Root).resolve:
+//
+//	if result, err = co.CoerceOut(obj); err != nil { ea = append(ea, …) [; result = nil] }
+//
+// Anything else in that block is an unknown shape.
+func leafErrNulls(c *ctx) string {
+	fd := c.funcs["Root.resolve"]
+	if fd == nil {
+		return unknown("resolve_missing", "resolve.go")
+	}
+	var site *ast.IfStmt
+	n := 0
+	ast.Inspect(fd.Body, func(nd ast.Node) bool {
+		if s, ok := nd.(*ast.IfStmt); ok && s.Init != nil && strings.Contains(c.src(s.Init), ".CoerceOut(") {
+			site = s
+			n++
+		}
+		return true
+	})
+	if site == nil || n != 1 {
+		return unknown("resolve_leaf_site", c.pos(fd))
+	}
+	if c.src(site.Init) != "result, err = co.CoerceOut(obj)" || c.src(site.Cond) != "err != nil" || site.Else != nil {
+		return unknown("resolve_leaf_if", c.pos(site))
+	}
+	nulls, warned := "false", false
+	for _, st := range site.Body.List {
+		as, _ := st.(*ast.AssignStmt)
+		if as == nil || as.Tok != token.ASSIGN || len(as.Lhs) != 1 || len(as.Rhs) != 1 {
+			return unknown("resolve_leaf_stmt", c.pos(st))
+		}
+		switch {
+		case c.src(as.Lhs[0]) == "ea" && strings.HasPrefix(c.src(as.Rhs[0]), "append(ea, resWarn(field.line, field.col,"):
+			warned = true
+		case c.src(as.Lhs[0]) == "result" && c.src(as.Rhs[0]) == "nil":
+			nulls = "true"
+		default:
+			return unknown("resolve_leaf_assign", c.pos(st))
+		}
+	}
+	if !warned {
+		return unknown("resolve_leaf_no_error", c.pos(site))
+	}
+	return nulls
 }
